@@ -233,6 +233,39 @@ func G2PlusTorsion(g2enc []byte, which int) ([]byte, error) {
 	return s.Compress(), nil
 }
 
+// G2PlusMultiple returns the compressed encoding of Q + [c]T for the torsion point T of index
+// `which` (c is reduced modulo T's order; c = 0 returns Q unchanged).
+func G2PlusMultiple(g2enc []byte, which int, c int64) ([]byte, error) {
+	q, err := Decompress(g2enc)
+	if err != nil {
+		return nil, err
+	}
+	l := SmallPrimes[which%len(SmallPrimes)]
+	c = ((c % l) + l) % l
+	s := e2Add(q, e2Mul(Torsion(which), big.NewInt(c)))
+	if s.Inf || !s.onCurve() {
+		return nil, errors.New("unexpected sum")
+	}
+	return s.Compress(), nil
+}
+
+// CancelCoeff returns c such that x^p + c*x^q = 0 modulo the order l of torsion point `which`
+// (so that adding T to coefficient p and [c]T to coefficient q of a verification vector leaves
+// the image at x unchanged); ok=false if x is not invertible modulo l.
+func CancelCoeff(which int, x int64, p, q int) (int64, bool) {
+	l := big.NewInt(SmallPrimes[which%len(SmallPrimes)])
+	bx := big.NewInt(x)
+	if new(big.Int).Mod(bx, l).Sign() == 0 {
+		return 0, false
+	}
+	xp := new(big.Int).Exp(bx, big.NewInt(int64(p)), l)
+	xq := new(big.Int).Exp(bx, big.NewInt(int64(q)), l)
+	inv := new(big.Int).ModInverse(xq, l)
+	c := new(big.Int).Mul(xp, inv)
+	c.Neg(c).Mod(c, l)
+	return c.Int64(), true
+}
+
 // SelfCheck validates the arithmetic: H2 divisible by the small primes, torsion points have
 // the claimed order and are on the curve, compress/decompress round-trips.
 func SelfCheck(g2enc []byte) error {
